@@ -6,9 +6,33 @@ from plsa.manifest_data import CHECKS, NOT_APPLICABLE, NOTES
 
 props = [json.loads(l)["id"] for l in open(os.path.join(os.path.dirname(os.path.abspath(__file__)), "properties.jsonl"))]
 checks = []
+
+
+def rules_of(pid, _ctx={}):
+    """ids and texts of the rules the registered check of `pid` evaluates (taken from a run on the current tree, so the
+    manifest cannot drift from what the check does)"""
+    from plsa import extract
+    from plsa.check import run_property, Ctx
+    from plsa.core import load_crates
+    if "ctx" not in _ctx:
+        facts, _ = extract.extract()
+        _ctx["ctx"] = Ctx(load_crates(facts), "quick", extract.repo_root())
+    rc, info = run_property(pid, "quick", write_evidence=False, quiet=True, ctx=_ctx["ctx"])
+    seen, out = set(), []
+    for r in info["results"]:
+        if r.rule not in seen:
+            seen.add(r.rule)
+            out.append((r.rule, r.text))
+    return out
+
+
 for pid in props:
     if pid in CHECKS:
-        c = CHECKS[pid]
+        c = dict(CHECKS[pid])
+        rl = rules_of(pid)
+        c["level_text"] = c["level_text"] + " Clauses decided by this check (each a necessary condition of the property; rule texts in the evidence file): " + \
+            "; ".join("%s -- %s" % (rid, txt.split(": ")[0].split(". ")[0][:160]) for rid, txt in rl) + "."
+        c["technique"] = c["technique"] + " [rules: %s]" % ", ".join(rid for rid, _ in rl)
         checks.append({
             "property_id": pid,
             "quick_cmd": "python3 -m plsa.check %s --tier quick" % pid,
